@@ -9,7 +9,10 @@ Inductive probe :=
 | POffset (i : N)             (* @a[i], 1-based *)
 | PUint (n x : N)             (* uint8/16/32(x): n bytes, little endian *)
 | PFilesize                   (* defined filesize *)
-| PChecksum (x n : N).        (* hash.checksum32(x, n) *)
+| PChecksum (x n : N)         (* hash.checksum32(x, n) *)
+| PEntry (e : option N).      (* entrypoint; e = the per-region composition: (entry point of the first listed region
+                                 that is a PE / ELF image, as the implementation computes it on that region's bytes
+                                 scanned alone) + that region's base *)
 
 (* what the implementation answered: a verdict, or a logged integer (None = undefined) *)
 Inductive pres := RBool (b : bool) | RInt (v : option N).
@@ -33,6 +36,7 @@ Definition probe_model (can_refetch : bool) (regions : list fregion) (t : list s
   | PUint n x => RInt (read_uint can_refetch regions x n)
   | PFilesize => RBool (match filesize_fragmented regions with Some _ => true | None => false end)
   | PChecksum x n => RInt (option_map checksum (on_range can_refetch regions x (x + n)))
+  | PEntry e => RInt e
   end.
 
 (* what the property demands *)
@@ -46,6 +50,7 @@ Definition probe_spec (can_refetch : bool) (regions : list fregion) (t : list sm
   | PUint n x => RInt (option_map le_value (spec_read can_refetch regions x n))
   | PFilesize => RBool false
   | PChecksum x n => RInt (option_map checksum (spec_range can_refetch regions x (x + n)))
+  | PEntry e => RInt e
   end.
 
 (* known finding C11-region-order (DESIGN 9.12): address-based lookups assume regions arrive in
@@ -61,6 +66,15 @@ Definition probe_by_address (p : probe) : bool :=
 Definition kf_region_order (regions : list fregion) (probes : list probe) : N :=
   if negb (ascending_regions 0 regions) && existsb probe_by_address probes then 1 else 0.
 
+(* the class is narrow: the match list itself (per-region union, inside one region) and every probe
+   that does not look an address up must still be right; only address-based probes may be off *)
+Definition kf_region_order_narrow (can_refetch : bool) (regions : list fregion) (per_region : list (list smatch))
+           (t : list smatch) (probes : list probe) (results : list pres) : N :=
+  if list_eqb smatch_eqb t (frag_union per_region regions)
+     && forallb (inside_one_region regions) t
+     && forallb2 (fun p r => probe_by_address p || pres_eqb (probe_spec can_refetch regions t p) r) probes results
+  then kf_region_order regions probes else 0.
+
 (* d: the text string; per_region: the implementation's contiguous scan of each fetched region's bytes
    (scan_mem), in region order; t: its fragmented scan; probes/results: one rule per probe *)
 Definition C11_case (d : tdecl) (prm : sparams) (can_refetch : bool) (regions : list fregion)
@@ -71,7 +85,7 @@ Definition C11_case (d : tdecl) (prm : sparams) (can_refetch : bool) (regions : 
    list_eqb smatch_eqb t (frag_union per_region regions)
    && forallb (inside_one_region regions) t
    && forallb2 (fun p r => pres_eqb (probe_spec can_refetch regions t p) r) probes results,
-   kf_region_order regions probes).
+   kf_region_order_narrow can_refetch regions per_region t probes results).
 
 (* strings that are not text strings (hex / regex, MatcherKind::Atomized or Raw): their matcher is
    not modelled here; the fragmented list is compared with the per-region scans only, the probes
@@ -83,4 +97,4 @@ Definition C11_case_other (prm : sparams) (can_refetch : bool) (regions : list f
    list_eqb smatch_eqb t (frag_union per_region regions)
    && forallb (inside_one_region regions) t
    && forallb2 (fun p r => pres_eqb (probe_spec can_refetch regions t p) r) probes results,
-   kf_region_order regions probes).
+   kf_region_order_narrow can_refetch regions per_region t probes results).
